@@ -66,7 +66,8 @@ static void t_collapse(const char *in, char *out, size_t cap)
 }
 
 /* content of file id: identifies which files were applied (only_<id>), which came last (k) and the relative
- * order of every pair (pr_<a>_<b>); placed group-less, in [S], or both, depending on the id */
+ * order of every pair (pr_<a>_<b>), plus a key (e) that every second file sets to the empty value; placed group-less, in [S],
+ * or both, depending on the id */
 static void t_build_contents(void)
 {
   ts.nfiles = ts.nlayers + ts.nlayers * ts.ncd * ts.nu;
@@ -81,6 +82,9 @@ static void t_build_contents(void)
     tree_ent base[T_MAXF + 2]; int nb = 0;
     snprintf(base[nb].k, sizeof base[nb].k, "only_%d", id); snprintf(base[nb].v, sizeof base[nb].v, "1"); nb++;
     snprintf(base[nb].k, sizeof base[nb].k, "k"); snprintf(base[nb].v, sizeof base[nb].v, "f%d", id); nb++;
+    /* e: every second file assigns the EMPTY value ("e=" with nothing behind the delimiter); an empty assignment in a later file
+     * overrides a non-empty one of an earlier file like any other */
+    snprintf(base[nb].k, sizeof base[nb].k, "e"); if (id % 2) base[nb].v[0] = 0; else snprintf(base[nb].v, sizeof base[nb].v, "f%d", id); nb++;
     /* order keys: at most one file per drop-in name is ever applied (same names mask each other), so the relative
      * order of two applied drop-ins is told by a key per pair of NAMES, that of main file and drop-in by a key per name */
     if (cd < 0) {
